@@ -17,3 +17,8 @@ pub fn tail_keeper(v: &[u64]) -> u64 {
 pub fn infinity_writer<P: ark_ec::short_weierstrass::SWCurveConfig>(p: &mut ark_ec::short_weierstrass::Affine<P>) {
     p.infinity = true;
 }
+
+/// R-LAZY (C17): a mutating closure in a lazy adaptor that is pulled once.
+pub fn lazy_writer(src: &[(usize, u64)], dst: &mut [u64]) {
+    src.iter().map(|&(i, v)| dst[i] = v).next_back();
+}
